@@ -376,6 +376,64 @@ func (c *Ctx) apiVersionFixup() {
 			aU := fn.FromUntil(fi.Decl.Body.List[0], gf.TrueState(), top)
 			ok = !aU.StateBefore(final).Reachable()
 		}
+		// "unchanged in every field the API models": what the decoder has filled in is left as it is; the only thing a
+		// conversion writes into the objects it returns is the type header (and the items it has re-typed, back in place)
+		nSt := 0
+		for _, bd := range fn.Bodies() {
+			ast.Inspect(bd, func(n ast.Node) bool {
+				as, ok := n.(*ast.AssignStmt)
+				if !ok {
+					return true
+				}
+				for li, l := range as.Lhs {
+					l = ast.Unparen(l)
+					var field string
+					switch x := l.(type) {
+					case *ast.SelectorExpr:
+						if _, isField := info.ObjectOf(x.Sel).(*types.Var); !isField || !info.ObjectOf(x.Sel).(*types.Var).IsField() {
+							continue
+						}
+						field = x.Sel.Name
+					case *ast.IndexExpr:
+						if _, isSel := ast.Unparen(x.X).(*ast.SelectorExpr); !isSel {
+							continue
+						}
+						field = "[]"
+					case *ast.StarExpr:
+						field = "*"
+					default:
+						continue
+					}
+					// (only what is rooted in an API object: a set, a list, an apply configuration, or one of their parts)
+					if r := rootIdent(l); r == nil || !apiObjectType(info.TypeOf(r)) {
+						continue
+					}
+					nSt++
+					cname := name + ": " + types.ExprString(l) + " = …"
+					switch field {
+					case "APIVersion", "Kind":
+						c.OK("C19.2-conversion-writes-the-type-header-only", cname, as.Pos(), "the type header")
+					case "[]":
+						// X.Items[i] = v inside `for i, v := range X.Items`
+						ix := l.(*ast.IndexExpr)
+						good := false
+						if rs, isR := innermostLoop(bd, as).(*ast.RangeStmt); isR && len(as.Rhs) == len(as.Lhs) {
+							if v, isID := ast.Unparen(as.Rhs[li]).(*ast.Ident); isID && rs.Value != nil && rs.Key != nil {
+								if rv, isID := rs.Value.(*ast.Ident); isID && info.ObjectOf(rv) == info.ObjectOf(v) &&
+									types.ExprString(rs.X) == types.ExprString(ix.X) && types.ExprString(rs.Key) == types.ExprString(ix.Index) {
+									good = true
+								}
+							}
+						}
+						c.Check(good, "C19.2-conversion-writes-the-type-header-only", cname, as.Pos(), "the item of this iteration, back in its place", "a list element is replaced by something other than the item that stood there: lists no longer keep their content and order")
+					default:
+						c.Bad("C19.2-conversion-writes-the-type-header-only", cname, as.Pos(), "the conversion alters "+types.ExprString(l)+" after decoding: an object written through the hijack client and read back is no longer unchanged in that field")
+					}
+				}
+				return true
+			})
+		}
+		c.Floor("C19.2-conversion-stores", nSt, 1)
 		c.Check(ok, "C19.2-apiversion", name+": result.APIVersion", fi.Decl.Pos(), "every successful return has passed `result.APIVersion = "+wantGV+".SchemeGroupVersion.String()`", "a converted object can be returned without the target apiVersion")
 		// list items
 		if strings.Contains(name, "List") {
@@ -1065,4 +1123,20 @@ func (c *Ctx) convertsFromBuiltin(info *types.Info, call *ast.CallExpr, depth in
 		}
 	})
 	return good && n > 0
+}
+
+// apiObjectType: a (pointer to a) named type of one of the apps/v1 API or apply-configuration packages.
+func apiObjectType(t types.Type) bool {
+	if t == nil {
+		return false
+	}
+	if p, ok := t.Underlying().(*types.Pointer); ok {
+		t = p.Elem()
+	}
+	n, ok := types.Unalias(t).(*types.Named)
+	if !ok || n.Obj().Pkg() == nil {
+		return false
+	}
+	pp := n.Obj().Pkg().Path()
+	return strings.HasSuffix(pp, "/apps/v1") || strings.Contains(pp, "applyconfiguration")
 }
